@@ -35,6 +35,20 @@ class KnnScan:
     bound_ok: bool = False  # the loop visits slots start, start-1, ..., 1 at most
     tests: List[Term] = field(default_factory=list)  # continuation tests other than the bound
     start: Term = None
+    drop_last: bool = False  # the insertion slot is the last REAL slot (written only by candidates that beat it)
+
+    @property
+    def k(self) -> Term:
+        """The number of neighbours kept: the insertion slot itself when it is a scratch slot beyond them, one more when the
+        candidate is written over the last real slot."""
+        if not self.drop_last:
+            return self.slot
+        l = lin(("bin", "+", self.slot, ("const", 1)))
+        if l is not None:
+            atoms = [a for a in l if a != 1 and l[a] != 0]
+            if len(atoms) == 1 and l[atoms[0]] == 1 and l.get(1, 0) == 0:
+                return atoms[0]
+        return ("bin", "+", *sorted([("const", 1), self.slot], key=repr))
 
     @property
     def fn(self):
@@ -129,11 +143,15 @@ def shift_view(w):
         cvar, c, bound_ok, tests, start = bv
         strip = lambda t: t[1] if t[0] == "old" else t
         D = H = None
+        held_weight = False
         for t in tests:
             if t[0] == "cmp" and t[1] in ("<", "<="):
                 for a, b in ((t[2], t[3]), (t[3], t[2])):
                     if b[0] == "idx" and lin_eq(lin(b[2]), {c: 1, 1: -1}) and strip(a) == ("idx", b[1], start) and b[1][0] == "alloc":
                         D, H = b[1], a
+                    elif b[0] == "idx" and lin_eq(lin(b[2]), {c: 1, 1: -1}) and b[1][0] == "alloc" and _is_weight(_nan_as_empty(strip(a))):
+                        # the candidate is held in a local and written over the LAST REAL slot (no scratch slot): see below
+                        D, H, held_weight = b[1], a, True
         if D is None:
             continue
         cm1 = None
@@ -156,10 +174,42 @@ def shift_view(w):
         cand = w.loops[li.loops[-1]]
         post = [e for e in w.events if e.kind == "store" and e.loops == li.loops and e.seq > li.last_seq
                 and e.target[0] == "idx" and e.target[1] in (D, Nb)]
-        pd = [e for e in post if e.target == ("idx", D, F) and strip(e.value) == ("idx", D, start) and not e.aug]
+        pd = [e for e in post if e.target == ("idx", D, F) and strip(e.value) == (strip(H) if held_weight else ("idx", D, start)) and not e.aug]
         pn = [e for e in post if e.target == ("idx", Nb, F) and not e.aug]
         if len(post) != 2 or len(pd) != 1 or len(pn) != 1:
             continue
+        kth = None
+        if held_weight:
+            # Without a scratch slot the candidate overwrites slot `start` - the k-th best so far.  That is the insertion of the
+            # exchange form started at that slot, provided only candidates that beat it get there: the whole insertion must sit
+            # under `candidate < d[start]` (strictly: an equal candidate must not displace the incumbent)
+            from .ir import facts as _facts
+            pre_f = ("cmp", "<", strip(H), ("idx", D, start))
+            own = [f for f in _facts(pd[0].guards) if f not in _facts(cand.guards)]
+            own_s = [tuple(strip(x) if isinstance(x, tuple) else x for x in f) for f in own]
+            kth = None
+            if pre_f not in own_s and pre_f not in own:
+                # ... or under `candidate < kth` with kth a running copy of d[start]: FLOAT_MAX when the scan of a query starts
+                # (as the buffer is, rule KNN-reset) and re-read from d[start] right after every insertion
+                for f in own_s:
+                    if f[0] == "cmp" and f[1] == "<" and f[2] == strip(H) and f[3][0] == "phi" and f[3][1] == cand.lid \
+                            and f[3][2] in cand.carried:
+                        init_k, end_k = cand.carried[f[3][2]]
+                        leaves = []
+
+                        def collect(t):
+                            if t[0] == "sel":
+                                collect(t[2])
+                                collect(t[3])
+                            else:
+                                leaves.append(strip(t))
+                        collect(end_k)
+                        rebinds = [e for e in w.events if e.kind == "bind" and e.name == f[3][2] and cand.lid in e.loops]
+                        if init_k == K("FLOAT_MAX") and set(leaves) == {f[3], ("idx", D, start)} and len(rebinds) == 1 \
+                                and rebinds[0].seq > pd[0].seq and _facts(rebinds[0].guards) == _facts(pd[0].guards):
+                            kth = f[3]
+                if kth is None:
+                    continue
         slot_c = ("idx", D, c)
 
         def R(t):
@@ -168,11 +218,21 @@ def shift_view(w):
             if t == H:
                 return slot_c
             return tuple(R(x) if isinstance(x, tuple) else x for x in t)
+        kth_t = kth if held_weight else None
+
+        def RK(t):  # the running copy of d[start] read as d[start]
+            if kth_t is None or t is None or not isinstance(t, tuple) or not t:
+                return t
+            if t == kth_t:
+                return ("idx", D, start)
+            return tuple(RK(x) if isinstance(x, tuple) else x for x in t)
         events = []
         has_index_store = any(e.kind == "store" and e.loops == li.loops and e.target == ("idx", Nb, start) and e.seq < li.first_seq
                               for e in w.events)
         for e in w.events:
             if e is pd[0]:
+                if held_weight:
+                    events.append(dataclasses.replace(e, target=("idx", D, start), value=strip(H)))
                 continue
             if e is pn[0]:
                 if not has_index_store:
@@ -181,17 +241,24 @@ def shift_view(w):
             if li.lid in e.loops:
                 e = dataclasses.replace(e, target=R(e.target), value=R(e.value), args=tuple(R(a) for a in (e.args or ())),
                                         guards=tuple((R(g), pol) for g, pol in e.guards))
+            if kth_t is not None and e.kind == "bind" and e.name == kth_t[2]:
+                continue
             events.append(e)
             if e.kind == "store" and li.lid in e.loops and e.target[0] == "idx" and e.target[2] == c and e.target[1] in bufs:
                 events.append(dataclasses.replace(e, target=("idx", e.target[1], cm1), value=("idx", e.target[1], c)))
+        if kth_t is not None:
+            events = [dataclasses.replace(e, guards=tuple((RK(g), pol) for g, pol in e.guards)) for e in events]
         view = types.SimpleNamespace(**{k: getattr(w, k) for k in ("entry", "repo", "guard_src", "old_cause", "inlined", "binop")
                                         if hasattr(w, k)})
         view.guard_src = dict(w.guard_src)
+        for g, src in list(w.guard_src.items()):
+            view.guard_src.setdefault(RK(g), src)
         for g, src in list(w.guard_src.items()):
             view.guard_src.setdefault(R(g), src)
         view.events = events
         view.loops = dict(w.loops)
         view.loops[li.lid] = dataclasses.replace(li, cond=R(li.cond))
+        view.drop_last = set(getattr(w, "drop_last", ())) | ({li.lid} if held_weight else set())
         return shift_view(view)  # (one view per scan; a function may hold more than one)
     return w
 
@@ -222,6 +289,7 @@ def find_knn_scans(w: Walker) -> List[KnnScan]:
         slot = start
         scan = KnnScan(w, per, cand, li, D, None, slot, cvar)
         scan.c, scan.bound_ok, scan.tests, scan.start = c, bound_ok, tests, start
+        scan.drop_last = li.lid in getattr(w, "drop_last", ())
         import dataclasses
         for e in w.events:
             if e.kind == "store" and e.loops == li.loops and e.target == ("idx", D, slot) and _is_weight(_nan_as_empty(e.value)):
@@ -352,6 +420,10 @@ def check_knn_scan(rep, pre: str, scan: KnnScan, graph: Term, allow_self_skip: b
     for name, buf in (("distance", scan.D), ("index", scan.N)):
         okl = buf[0] == "alloc" and buf[1] in ("numpy.zeros", "numpy.empty", "numpy.ones", "numpy.full") and buf[2] \
             and lin_eq(_sub(lin(buf[2][0]), lin(scan.slot)), {1: 1})
+        if not okl and scan.drop_last and buf[0] == "alloc" and buf[2]:
+            # (no scratch slot: slots beyond the last real one are never written - they stay empty and are skipped as such)
+            d = _sub(lin(buf[2][0]), lin(scan.slot))
+            okl = d is not None and not [a for a in d if a != 1 and d[a] != 0] and d.get(1, 0) >= 1
         rep.fn(pre + "KNN-length", fn, f"{name} buffer has k + 1 slots", bool(okl),
                f"{name} buffer is '{show(buf)}' while the insertion slot is '{show(scan.slot)}'", line=line)
     # guards on the scan body
@@ -368,6 +440,10 @@ def check_knn_scan(rep, pre: str, scan: KnnScan, graph: Term, allow_self_skip: b
                 and w.repo.constants.get("NIL") == -1:
             # `j != exclude` with exclude = NIL (-1): a position of a node loop is never negative - the test holds always
             rep.guard(pre + "KNN-guard", w, g, ws, True, "a node position never equals NIL")
+        elif t == ("cmp", "<", ws.value, ("idx", scan.D, scan.slot)):
+            # `if not d < dist[slot]: continue`: the insertion slot holds the largest of what was kept so far (a scratch slot: the
+            # last entry evicted, or FLOAT_MAX) - a candidate that does not beat it would not leave that slot
+            rep.guard(pre + "KNN-guard", w, g, ws, True, "a candidate that does not beat the insertion slot stays there")
         elif t == ("cmp", "<", ws.value, K("FLOAT_MAX")):
             # `if not d < FLOAT_MAX: continue`: a candidate at the float limit (or NaN) never leaves the scratch slot - every
             # kept slot is <= FLOAT_MAX - so skipping it before it is written changes none of the k slots that are read
